@@ -353,6 +353,10 @@ def _job(args):
     judge = {path.split(".")[-1] if "." not in path else path: j for _, path, j in J.REGISTRY}
     jf = judge.get(jn) or judge.get(jn.split(".")[-1]) or {p.split(".")[-1]: j for _, p, j in J.REGISTRY}[jn.split(".")[-1]]
     pre = tuple(x.copy() if isinstance(x, np.ndarray) else x for x in a)
+    # what the caller ASKED for (option values as plain Python numbers, taken before any call can touch a carrier object)
+    plain = lambda v: v.item() if isinstance(v, (np.generic, np.ndarray)) and np.ndim(v) == 0 and not isinstance(v, np.quaternion) else v
+    kw_asked = {k_: plain(v_) for k_, v_ in kw.items()}
+    pre = tuple(plain(x) for x in pre)
     np.random.seed(seed % (2 ** 31))
     a_call, kw_call = styled if styled is not None else (a, kw)          # the judge sees the call as the builder wrote it
     with contextlib.redirect_stdout(io.StringIO()):
@@ -360,20 +364,21 @@ def _job(args):
             # the caller keeps its option objects (a 0-d array holding a tolerance or a budget) and passes them again:
             # the judged call is the SECOND one with the same objects
             # (array arguments are copied for the first call - some kernels overwrite them by design -, option objects are not)
-            fn(*[x.copy() if isinstance(x, np.ndarray) else x for x in a_call], **{k_: (v_.copy() if isinstance(v_, np.ndarray) and v_.ndim else v_) for k_, v_ in kw_call.items()})
+            for _warm in range(2):
+                fn(*[x.copy() if isinstance(x, np.ndarray) and x.ndim else x for x in a_call], **{k_: (v_.copy() if isinstance(v_, np.ndarray) and v_.ndim else v_) for k_, v_ in kw_call.items()})
             np.random.seed(seed % (2 ** 31))
         out = fn(*a_call, **kw_call)
     attr = jn.split(".")[-1] if jn.split(".")[0][0].isupper() else jn
     if styled is None and attr not in J.INPLACE_BY_DESIGN and jn not in J.INPLACE_BY_DESIGN and "Hess_QR" not in jn:
         # the contract is about the matrix the CALLER holds: judge against the argument objects as they are after the call
-        pre = tuple(a)
+        pre = tuple(x if (isinstance(x, np.ndarray) and x.ndim) or i_ >= len(pre) else pre[i_] for i_, x in enumerate(a))
     if name.endswith("@df"):
         try:
-            recs = jf(attr if attr in ("compute", "solve") else jn, fn, pre, kw, out)
+            recs = jf(attr if attr in ("compute", "solve") else jn, fn, pre, kw_asked, out)
         except Exception:
             return []                                     # the judge was written for another form of output (return_* options)
     else:
-        recs = jf(attr if attr in ("compute", "solve") else jn, fn, pre, kw, out)
+        recs = jf(attr if attr in ("compute", "solve") else jn, fn, pre, kw_asked, out)
     return [(o.prop, o.fn, o.cls, dict(o.detail, size_sweep=True, routine=name, n=n), o.events) for o in recs]
 
 
@@ -387,6 +392,13 @@ def _c14_job(name, n, seed):
         if n < 8:
             return []                         # this routine's builder has no instance that small
         raise
+    from .qlib import numpy_carriers
+    if a and not isinstance(a[0], np.ndarray) and hasattr(a[0], "__dict__"):
+        a2_, kw = numpy_carriers(a[1:], kw, zero_d=True)
+        a = (a[0],) + a2_
+    else:
+        a, kw = numpy_carriers(a, kw, zero_d=True)       # numeric options held as 0-d arrays: caller's arrays like any other
+    carriers0 = [(x, x.item()) for x in list(a) + list(kw.values()) if isinstance(x, np.ndarray) and x.ndim == 0 and x.dtype != np.quaternion]
     pre = [J.arg_digest(x) for x in a]
     outs = []
     for rep in range(2):
@@ -411,7 +423,7 @@ def _c14_job(name, n, seed):
         return d_ if d_ is not None else repr(o_)[:80]
     o = J.Out("C14", name, "size-sweep", {"n": n, "size_sweep": True})
     if not inplace:
-        o.flag("ArgumentsUnchanged", bool(all(p is None or p == q for p, q in zip(pre, post))))
+        o.flag("ArgumentsUnchanged", bool(all(p is None or p == q for p, q in zip(pre, post)) and all(x.item() == v for x, v in carriers0)))
         if "HigherOrder" in name:
             outs = [o_[:2] for o_ in outs]        # the third return value is a list of wall-clock timings
         o.flag("RepeatRepeatsResult", bool(dig(outs[0]) == dig(outs[1])))
